@@ -270,6 +270,27 @@ def run_tlc(scratch, spec_dirs, module, cfg, workers=None, timeout=600, simulate
     return r
 
 
+def run_apalache(scratch, spec_dirs, module, args, timeout=600):
+    """apalache-mc check <args> <module>.tla in a staged copy; returns "NoError" | "Error" (raises Inconclusive on anything else)."""
+    _stage(scratch, spec_dirs)
+    out = os.path.join(scratch, "apalache-%s-%d" % (module, int(time.time() * 1000) % 1000000))
+    cmd = ["apalache-mc", "check"] + list(args) + ["--out-dir=" + out, module + ".tla"]
+    t0 = time.time()
+    try:
+        p = subprocess.run(cmd, cwd=scratch, stdout=subprocess.PIPE, stderr=subprocess.STDOUT, text=True, timeout=timeout)
+    except subprocess.TimeoutExpired:
+        raise Inconclusive("apalache timed out after %d s on %s %s" % (timeout, module, " ".join(args)))
+    except FileNotFoundError:
+        raise Inconclusive("apalache-mc is not installed")
+    finally:
+        shutil.rmtree(out, ignore_errors=True)
+    m = re.search(r"The outcome is: (\w+)", p.stdout)
+    if not m or m.group(1) not in ("NoError", "Error"):
+        raise Inconclusive("apalache gave no verdict on %s %s: %s" % (module, " ".join(args), p.stdout[-1500:]))
+    log("apalache %s %s: %s in %.1fs" % (module, " ".join(args), m.group(1), time.time() - t0))
+    return m.group(1)
+
+
 def tlc_must_pass(r, what):
     """Model-level run that must complete without error (design-level statement)."""
     if r.error:
